@@ -141,11 +141,9 @@ theorem inv_put {s : State} {k : Nat} {w w' : Waiter} {cbs : List Cb} (hi : Inv 
     (hw : WInv s.cbq k w → WInv (s.cbq ++ cbs) k w')
     (hmono : w.fut ≠ .pending → w'.fut ≠ .pending)
     (hq : ∀ j, Cb.remove j ∈ cbs → j = k ∧ w'.fut ≠ .pending) : Inv (s.put k (w', cbs)) := by
-  apply inv_update hi hk (w' := w') rfl hi.e
+  refine inv_update (s' := s.put k (w', cbs)) hi hk rfl hi.e ?_ hw hmono ?_
   · intro j _ c _ hc
     exact List.mem_append_left _ hc
-  · exact hw
-  · exact hmono
   · intro j hj
     rcases List.mem_append.mp hj with h | h
     · exact Or.inl h
@@ -165,20 +163,22 @@ theorem inv_create {s : State} (hi : Inv s) (kd : Kind) (m : Matcher) : Inv (ste
   refine ⟨?_, ?_, hi.e⟩
   · intro k w hk
     simp only [step] at hk ⊢
-    rw [List.getElem?_append] at hk
     by_cases hlt : k < s.ws.length
-    · simp [hlt] at hk
+    · rw [List.getElem?_append_left hlt] at hk
       exact hi.w _ _ hk
-    · simp [hlt] at hk
-      obtain ⟨_, rfl⟩ := hk
-      simp [WInv]
+    · rw [List.getElem?_append_right (Nat.le_of_not_lt hlt)] at hk
+      cases hkl : k - s.ws.length with
+      | zero =>
+        simp [hkl] at hk
+        subst hk
+        simp [WInv]
+      | succ n => simp [hkl] at hk
   · intro j hj
     obtain ⟨w, hw, hd⟩ := hi.q j hj
     refine ⟨w, ?_, hd⟩
     simp only [step]
-    rw [List.getElem?_append]
     have : j < s.ws.length := (List.getElem?_eq_some_iff.mp hw).1
-    simp [this, hw]
+    exact (List.getElem?_append_left this).trans hw
 
 theorem inv_message {s : State} (hi : Inv s) (μ : Msg) : Inv (step s (.message μ)) := by
   simp only [step, deliver_eq]
@@ -215,5 +215,494 @@ theorem inv_message {s : State} (hi : Inv s) (μ : Msg) : Inv (step s (.message 
       subst this
       refine ⟨resolveW μ s.nmsg w, by simp [hw], ?_⟩
       simp [resolveW, hh]
+
+theorem inv_awaitF {s : State} (hi : Inv s) (k : Nat) : Inv (step s (.awaitF k)) := by
+  simp only [step]
+  cases hk : s.ws[k]? with
+  | none => exact hi
+  | some w =>
+    simp only
+    by_cases hs : w.started = true
+    · simp [hs]; exact hi
+    · simp only [hs]
+      cases hf : w.fut <;> simp only <;>
+        (apply inv_put hi hk
+         · intro h; unfold WInv at *; simp only [List.append_nil]; grind
+         · simp [hf]
+         · simp)
+
+/-- the waiters `x` that `cancelW k w` can return: same caller-side flags as `w` -/
+def SameFlags (w x : Waiter) : Prop :=
+  x.kind = w.kind ∧ x.started = w.started ∧ x.awaiting = w.awaiting ∧ x.expired = w.expired ∧
+  x.cancelReq = w.cancelReq ∧ x.out = w.out
+
+theorem inv_cancel_like {s : State} (hi : Inv s) {k : Nat} {w : Waiter} (hk : s.ws[k]? = some w)
+    (g : Waiter → Waiter)
+    (hfut : ∀ x, (g x).fut = x.fut)
+    (hg : ∀ q x, x.fut ≠ .pending → SameFlags w x → WInv q k x → WInv q k (g x)) :
+    Inv (s.put k (g (cancelW k w).1, (cancelW k w).2)) := by
+  rcases cancelW_cases k w with ⟨hp, hc⟩ | ⟨hp, hc⟩
+  · rw [hc]
+    apply inv_put hi hk
+    · intro h
+      apply hg _ _ (by simp) (by simp [SameFlags])
+      unfold WInv at *
+      simp only [List.mem_append, doneCbs]
+      grind
+    · simp [hfut]
+    · intro j hj
+      exact ⟨doneCbs_remove hj, by simp [hfut]⟩
+  · rw [hc]
+    apply inv_put hi hk
+    · intro h
+      simp only [List.append_nil]
+      exact hg _ _ hp (by simp [SameFlags]) h
+    · simp [hfut]
+    · simp
+
+theorem inv_timeout {s : State} (hi : Inv s) (k : Nat) : Inv (step s (.timeout k)) := by
+  simp only [step]
+  cases hk : s.ws[k]? with
+  | none => exact hi
+  | some w =>
+    simp only
+    by_cases hc : (w.awaiting && !w.expired) = true
+    · simp only [hc, if_true]
+      simp only [Bool.and_eq_true, Bool.not_eq_true'] at hc
+      apply inv_cancel_like hi hk (fun x => { x with expired := true }) (fun _ => rfl)
+      intro q x hx hsf h
+      unfold WInv SameFlags at *
+      grind
+    · simp only [hc]; exact hi
+
+theorem inv_cancelTask {s : State} (hi : Inv s) (k : Nat) : Inv (step s (.cancelTask k)) := by
+  simp only [step]
+  cases hk : s.ws[k]? with
+  | none => exact hi
+  | some w =>
+    simp only
+    by_cases hc : w.awaiting = true
+    · simp only [hc, if_true]
+      apply inv_cancel_like hi hk (fun x => { x with cancelReq := true }) (fun _ => rfl)
+      intro q x hx hsf h
+      unfold WInv SameFlags at *
+      grind
+    · simp only [hc]; exact hi
+
+theorem inv_cancelFut {s : State} (hi : Inv s) (k : Nat) : Inv (step s (.cancelFut k)) := by
+  simp only [step]
+  cases hk : s.ws[k]? with
+  | none => exact hi
+  | some w =>
+    simp only
+    exact inv_cancel_like hi hk (fun x => x) (fun _ => rfl) (fun _ _ _ _ h => h)
+
+theorem inv_sendFails {s : State} (hi : Inv s) (k : Nat) : Inv (step s (.sendFails k)) := by
+  simp only [step]
+  cases hk : s.ws[k]? with
+  | none => exact hi
+  | some w =>
+    simp only
+    by_cases hc : (decide (w.kind = .exec) && !w.started) = true
+    · simp only [hc, if_true]
+      simp only [Bool.and_eq_true, Bool.not_eq_true', decide_eq_true_eq] at hc
+      apply inv_cancel_like hi hk (fun x => { x with started := true, out := .sendError }) (fun _ => rfl)
+      intro q x hx hsf h
+      unfold WInv SameFlags at *
+      grind
+    · simp only [hc]; exact hi
+
+theorem wakeW_remove {j k : Nat} {w : Waiter} (h : Cb.remove j ∈ (wakeW k w).2) :
+    j = k ∧ (wakeW k w).1.fut ≠ .pending := by
+  unfold wakeW at h ⊢
+  cases hf : w.fut <;> cases hk : w.kind <;> cases ha : w.awaiting <;> cases hc : w.cancelReq <;>
+    cases he : w.expired <;> simp_all [FStatus.done, setException]
+
+theorem wakeW_mono {k : Nat} {w : Waiter} (h : w.fut ≠ .pending) : (wakeW k w).1.fut ≠ .pending := by
+  unfold wakeW
+  cases hf : w.fut <;> cases hk : w.kind <;> cases ha : w.awaiting <;> cases hc : w.cancelReq <;>
+    cases he : w.expired <;> simp_all [FStatus.done]
+
+theorem wakeW_inv {q : List Cb} {k : Nat} {w : Waiter} (h : WInv (Cb.wake k :: q) k w) :
+    WInv (q ++ (wakeW k w).2) k (wakeW k w).1 := by
+  unfold WInv at *
+  unfold wakeW
+  cases hf : w.fut <;> cases hk : w.kind <;> cases ha : w.awaiting <;> cases hc : w.cancelReq <;>
+    cases he : w.expired <;> simp_all [FStatus.done, setException] <;> grind
+
+theorem inv_cb {s : State} (hi : Inv s) : Inv (step s .cb) := by
+  simp only [step]
+  cases hq : s.cbq with
+  | nil => simp only; exact hi
+  | cons c q =>
+    cases c with
+    | remove k =>
+      simp only
+      obtain ⟨w, hk, hd⟩ := hi.q k (by simp [hq])
+      simp only [hk]
+      refine inv_update (s' := { s with ws := s.ws.set k { w with listed := false }, cbq := q }) hi hk rfl hi.e
+        ?_ ?_ (fun h => h) ?_
+      · intro j hj c hc hm
+        rw [hq] at hm
+        rcases hc with rfl | rfl <;> simp_all
+      · intro h
+        rw [hq] at h
+        unfold WInv at *
+        simp_all
+      · intro j hj
+        left; rw [hq]; exact List.mem_cons_of_mem _ hj
+    | wake k =>
+      simp only
+      cases hk : s.ws[k]? with
+      | none =>
+        simp only
+        refine ⟨?_, ?_, hi.e⟩
+        · intro j wj hj
+          have h := hi.w j wj hj
+          rw [hq] at h
+          apply h.mono
+          · intro hm; simpa using hm
+          · intro hm
+            have : j ≠ k := by rintro rfl; simp_all
+            simp_all
+        · intro j hj
+          exact hi.q j (by rw [hq]; exact List.mem_cons_of_mem _ hj)
+      | some w =>
+        simp only
+        refine inv_update (s' := State.put { s with cbq := q } k (wakeW k w)) hi hk rfl hi.e ?_ ?_ wakeW_mono ?_
+        · intro j hj c hc hm
+          rw [hq] at hm
+          simp only [State.put, List.mem_append]
+          left
+          rcases hc with rfl | rfl <;> simp_all
+        · intro h
+          rw [hq] at h
+          exact wakeW_inv h
+        · intro j hj
+          simp only [State.put, List.mem_append] at hj
+          rcases hj with h | h
+          · left; rw [hq]; exact List.mem_cons_of_mem _ h
+          · right; exact wakeW_remove h
+
+theorem inv_step {s : State} (hi : Inv s) (op : Op) : Inv (step s op) := by
+  cases op with
+  | create kd m => exact inv_create hi kd m
+  | awaitF k => exact inv_awaitF hi k
+  | message μ => exact inv_message hi μ
+  | timeout k => exact inv_timeout hi k
+  | cancelTask k => exact inv_cancelTask hi k
+  | cancelFut k => exact inv_cancelFut hi k
+  | sendFails k => exact inv_sendFails hi k
+  | cb => exact inv_cb hi
+
+theorem inv_init : Inv {} := ⟨by simp, by simp, rfl⟩
+
+theorem inv_foldl (ops : List Op) : ∀ s, Inv s → Inv (ops.foldl step s) := by
+  induction ops with
+  | nil => intro s h; exact h
+  | cons op rest ih => intro s h; exact ih _ (inv_step h op)
+
+theorem inv_run (ops : List Op) : Inv (run ops) := inv_foldl ops _ inv_init
+
+/-! ### how one waiter evolves in one step -/
+
+/-- evolution of a waiter under any operation other than a matching message -/
+def Quiet (w x : Waiter) : Prop :=
+  x.m = w.m ∧ (w.fut ≠ .pending → x.fut = w.fut) ∧ (∀ i, x.fut = .result i → w.fut = .result i) ∧
+  (w.out ≠ .none → w.started = true → w.awaiting = false → x.out = w.out)
+
+theorem Quiet.rfl' (w : Waiter) : Quiet w w := ⟨rfl, fun _ => rfl, fun _ h => h, fun _ _ _ => rfl⟩
+
+theorem quiet_cancelW (k : Nat) (w : Waiter) : Quiet w (cancelW k w).1 := by
+  rcases cancelW_cases k w with ⟨hp, hc⟩ | ⟨hp, hc⟩ <;> rw [hc] <;> simp [Quiet, hp]
+
+theorem quiet_wakeW (k : Nat) (w : Waiter) : Quiet w (wakeW k w).1 := by
+  unfold Quiet wakeW
+  cases hf : w.fut <;> cases hk : w.kind <;> cases ha : w.awaiting <;> cases hc : w.cancelReq <;>
+    cases he : w.expired <;> simp_all [FStatus.done, setException]
+
+theorem set_get {ws : List Waiter} {j k : Nat} {w x : Waiter} (hk : ws[k]? = some w) :
+    (j = k ∧ (ws.set j x)[k]? = some x) ∨ (j ≠ k ∧ (ws.set j x)[k]? = some w) := by
+  have hlt : k < ws.length := (List.getElem?_eq_some_iff.mp hk).1
+  rw [List.getElem?_set]
+  by_cases h : j = k
+  · subst h; left; simp [hlt]
+  · right; simp [h, hk]
+
+/-- a waiter that exists stays, and evolves quietly unless the op is a message that hits it -/
+theorem step_get {s : State} (op : Op) {k : Nat} {w : Waiter} (hk : s.ws[k]? = some w) :
+    ∃ w', (step s op).ws[k]? = some w' ∧
+      ((∃ μ, op = .message μ ∧ w' = resolveW μ s.nmsg w) ∨ ((∀ μ, op ≠ .message μ) ∧ Quiet w w')) := by
+  have hlt : k < s.ws.length := (List.getElem?_eq_some_iff.mp hk).1
+  -- generic: the new list is `s.ws.set j x` with `Quiet` at j
+  have viaSet : ∀ (j : Nat) (wj x : Waiter), s.ws[j]? = some wj → Quiet wj x → (∀ μ, op ≠ .message μ) →
+      ∃ w', (s.ws.set j x)[k]? = some w' ∧
+        ((∃ μ, op = .message μ ∧ w' = resolveW μ s.nmsg w) ∨ ((∀ μ, op ≠ .message μ) ∧ Quiet w w')) := by
+    intro j wj x hj hq hne
+    rcases set_get (j := j) (x := x) hk with ⟨rfl, h⟩ | ⟨_, h⟩
+    · rw [hk] at hj; cases hj
+      exact ⟨x, h, Or.inr ⟨hne, hq⟩⟩
+    · exact ⟨w, h, Or.inr ⟨hne, Quiet.rfl' w⟩⟩
+  have same : (∀ μ, op ≠ .message μ) → ∃ w', s.ws[k]? = some w' ∧
+      ((∃ μ, op = .message μ ∧ w' = resolveW μ s.nmsg w) ∨ ((∀ μ, op ≠ .message μ) ∧ Quiet w w')) :=
+    fun hne => ⟨w, hk, Or.inr ⟨hne, Quiet.rfl' w⟩⟩
+  cases op with
+  | create kd m =>
+    refine ⟨w, ?_, Or.inr ⟨by simp, Quiet.rfl' w⟩⟩
+    simp only [step]
+    exact (List.getElem?_append_left hlt).trans hk
+  | awaitF j =>
+    simp only [step]
+    cases hj : s.ws[j]? with
+    | none => exact same (by simp)
+    | some wj =>
+      simp only
+      by_cases hs : wj.started = true
+      · simp only [hs, if_true]; exact same (by simp)
+      · simp only [hs]
+        cases hf : wj.fut <;> simp only [State.put] <;>
+          exact viaSet j wj _ hj (by unfold Quiet; simp_all) (by simp)
+  | message μ =>
+    simp only [step, deliver_eq, List.getElem?_map, hk]
+    exact ⟨_, rfl, Or.inl ⟨μ, rfl, rfl⟩⟩
+  | timeout j =>
+    simp only [step]
+    cases hj : s.ws[j]? with
+    | none => exact same (by simp)
+    | some wj =>
+      simp only
+      by_cases hc : (wj.awaiting && !wj.expired) = true
+      · simp only [hc, if_true, State.put]
+        refine viaSet j wj _ hj ?_ (by simp)
+        have := quiet_cancelW j wj
+        unfold Quiet at *
+        simp only [Bool.and_eq_true] at hc
+        simp_all
+      · simp only [hc]; exact same (by simp)
+  | cancelTask j =>
+    simp only [step]
+    cases hj : s.ws[j]? with
+    | none => exact same (by simp)
+    | some wj =>
+      simp only
+      by_cases hc : wj.awaiting = true
+      · simp only [hc, if_true, State.put]
+        refine viaSet j wj _ hj ?_ (by simp)
+        have := quiet_cancelW j wj
+        unfold Quiet at *
+        simp_all
+      · simp only [hc]; exact same (by simp)
+  | cancelFut j =>
+    simp only [step]
+    cases hj : s.ws[j]? with
+    | none => exact same (by simp)
+    | some wj =>
+      simp only [State.put]
+      exact viaSet j wj _ hj (quiet_cancelW j wj) (by simp)
+  | sendFails j =>
+    simp only [step]
+    cases hj : s.ws[j]? with
+    | none => exact same (by simp)
+    | some wj =>
+      simp only
+      by_cases hc : (decide (wj.kind = .exec) && !wj.started) = true
+      · simp only [hc, if_true, State.put]
+        refine viaSet j wj _ hj ?_ (by simp)
+        have := quiet_cancelW j wj
+        unfold Quiet at *
+        simp only [Bool.and_eq_true, Bool.not_eq_true'] at hc
+        simp_all
+      · simp only [hc]; exact same (by simp)
+  | cb =>
+    simp only [step]
+    cases hq : s.cbq with
+    | nil => exact same (by simp)
+    | cons c q =>
+      cases c with
+      | remove j =>
+        simp only
+        cases hj : s.ws[j]? with
+        | none => exact same (by simp)
+        | some wj => exact viaSet j wj _ hj (by simp [Quiet]) (by simp)
+      | wake j =>
+        simp only
+        cases hj : s.ws[j]? with
+        | none => exact same (by simp)
+        | some wj =>
+          simp only [State.put]
+          exact viaSet j wj _ hj (quiet_wakeW j wj) (by simp)
+
+/-- a waiter that appears in a step is a freshly created, pending one -/
+theorem step_new {s : State} (op : Op) {k : Nat} {w' : Waiter} (hn : s.ws[k]? = none)
+    (hk : (step s op).ws[k]? = some w') : w'.fut = .pending := by
+  have hlen : ∀ j x, (s.ws.set j x)[k]? = none := by
+    intro j x; simp [List.getElem?_eq_none_iff] at hn ⊢; exact hn
+  cases op with
+  | create kd m =>
+    simp only [step] at hk
+    have hge : s.ws.length ≤ k := by simpa [List.getElem?_eq_none_iff] using hn
+    rw [List.getElem?_append_right hge] at hk
+    cases hkl : k - s.ws.length with
+    | zero => simp [hkl] at hk; subst hk; rfl
+    | succ n => simp [hkl] at hk
+  | message μ => simp [step, deliver_eq, List.getElem?_map, hn] at hk
+  | awaitF j =>
+    simp only [step] at hk
+    cases hj : s.ws[j]? with
+    | none => simp [hj, hn] at hk
+    | some wj =>
+      simp only [hj] at hk
+      split at hk
+      · simp [hn] at hk
+      · split at hk <;> simp [State.put, hlen] at hk
+  | timeout j =>
+    simp only [step] at hk
+    cases hj : s.ws[j]? with
+    | none => simp [hj, hn] at hk
+    | some wj =>
+      simp only [hj] at hk
+      split at hk
+      · simp [State.put, hlen] at hk
+      · simp [hn] at hk
+  | cancelTask j =>
+    simp only [step] at hk
+    cases hj : s.ws[j]? with
+    | none => simp [hj, hn] at hk
+    | some wj =>
+      simp only [hj] at hk
+      split at hk
+      · simp [State.put, hlen] at hk
+      · simp [hn] at hk
+  | cancelFut j =>
+    simp only [step] at hk
+    cases hj : s.ws[j]? with
+    | none => simp [hj, hn] at hk
+    | some wj => simp [hj, State.put, hlen] at hk
+  | sendFails j =>
+    simp only [step] at hk
+    cases hj : s.ws[j]? with
+    | none => simp [hj, hn] at hk
+    | some wj =>
+      simp only [hj] at hk
+      split at hk
+      · simp [State.put, hlen] at hk
+      · simp [hn] at hk
+  | cb =>
+    simp only [step] at hk
+    cases hq : s.cbq with
+    | nil => simp [hq, hn] at hk
+    | cons c q =>
+      cases c with
+      | remove j =>
+        simp only [hq] at hk
+        cases hj : s.ws[j]? with
+        | none => simp [hj, hn] at hk
+        | some wj => simp [hj, hlen] at hk
+      | wake j =>
+        simp only [hq] at hk
+        cases hj : s.ws[j]? with
+        | none => simp [hj, hn] at hk
+        | some wj => simp [hj, State.put, hlen] at hk
+
+/-! ### trace-level helpers -/
+
+theorem resolveW_hit_iff {s : State} (hi : Inv s) {k : Nat} {w : Waiter} (hk : s.ws[k]? = some w) (μ : Msg) :
+    hit μ w = true ↔ (w.fut = .pending ∧ w.m.matches μ = true) := by
+  constructor
+  · intro h; exact ⟨(hit_pending h).1, (hit_pending h).2.2⟩
+  · rintro ⟨hp, hm⟩
+    have hl := (hi.w _ _ hk).1 hp
+    simp [hit, hp, hl, hm, FStatus.done]
+
+theorem step_stable {s : State} (hi : Inv s) (op : Op) {k : Nat} {w : Waiter} (hk : s.ws[k]? = some w) :
+    ∃ w', (step s op).ws[k]? = some w' ∧ w'.m = w.m ∧ (w.fut ≠ .pending → w'.fut = w.fut) ∧
+      (w.out ≠ .none → w'.out = w.out) := by
+  obtain ⟨w', hk', h⟩ := step_get op hk
+  refine ⟨w', hk', ?_⟩
+  rcases h with ⟨μ, _, rfl⟩ | ⟨_, hm, hf, _, ho⟩
+  · unfold resolveW
+    by_cases hh : hit μ w = true
+    · have := (hit_pending hh).1
+      simp [hh, this]
+    · simp [hh]
+  · have h6 := (hi.w _ _ hk).2.2.2.2.2.1
+    exact ⟨hm, hf, fun hn => ho hn (h6 hn).1 (h6 hn).2⟩
+
+theorem stable_foldl (ops : List Op) : ∀ (s : State) (k : Nat) (w : Waiter), Inv s → s.ws[k]? = some w →
+    ∃ w', (ops.foldl step s).ws[k]? = some w' ∧ w'.m = w.m ∧ (w.fut ≠ .pending → w'.fut = w.fut) ∧
+      (w.out ≠ .none → w'.out = w.out) := by
+  induction ops with
+  | nil => intro s k w _ hk; exact ⟨w, hk, rfl, fun _ => rfl, fun _ => rfl⟩
+  | cons op rest ih =>
+    intro s k w hi hk
+    obtain ⟨w1, hk1, hm1, hf1, ho1⟩ := step_stable hi op hk
+    obtain ⟨w2, hk2, hm2, hf2, ho2⟩ := ih _ k w1 (inv_step hi op) hk1
+    refine ⟨w2, hk2, hm2.trans hm1, ?_, ?_⟩
+    · intro h
+      have := hf1 h
+      rw [hf2 (by rw [this]; exact h), this]
+    · intro h
+      have := ho1 h
+      rw [ho2 (by rw [this]; exact h), this]
+
+theorem first_match_foldl (ops : List Op) : ∀ (s : State) (k i : Nat) (w : Waiter), Inv s →
+    (∀ w0, s.ws[k]? = some w0 → w0.fut ≠ .result i) →
+    (ops.foldl step s).ws[k]? = some w → w.fut = .result i →
+    ∃ pre μ post w0, ops = pre ++ Op.message μ :: post ∧ (pre.foldl step s).nmsg = i ∧
+      (pre.foldl step s).ws[k]? = some w0 ∧ w0.fut = .pending ∧ w0.listed = true ∧ w0.m.matches μ = true := by
+  induction ops with
+  | nil => intro s k i w _ h0 hk hr; exact absurd hr (h0 w hk)
+  | cons op rest ih =>
+    intro s k i w hi h0 hk hr
+    by_cases hA : ∃ w1, (step s op).ws[k]? = some w1 ∧ w1.fut = .result i
+    · obtain ⟨w1, hk1, hr1⟩ := hA
+      cases hs : s.ws[k]? with
+      | none =>
+        have := step_new op hs hk1
+        rw [this] at hr1; cases hr1
+      | some w0 =>
+        obtain ⟨w1', hk1', h⟩ := step_get op hs
+        rw [hk1] at hk1'; cases hk1'
+        rcases h with ⟨μ, rfl, rfl⟩ | ⟨_, _, _, hres, _⟩
+        · by_cases hh : hit μ w0 = true
+          · have hp := hit_pending hh
+            simp [resolveW, hh] at hr1
+            exact ⟨[], μ, rest, w0, rfl, hr1, hs, hp.1, hp.2.1, hp.2.2⟩
+          · simp [resolveW, hh] at hr1
+            exact absurd hr1 (h0 w0 hs)
+        · exact absurd (hres i hr1) (h0 w0 hs)
+    · have h0' : ∀ w1, (step s op).ws[k]? = some w1 → w1.fut ≠ .result i :=
+        fun w1 h1 h2 => hA ⟨w1, h1, h2⟩
+      obtain ⟨pre, μ, post, w0, he, hn, hk0, hp⟩ := ih (step s op) k i w (inv_step hi op) h0' hk hr
+      exact ⟨op :: pre, μ, post, w0, by rw [he]; rfl, hn, hk0, hp⟩
+
+theorem wakeW_cbs_nil {q : List Cb} {k : Nat} {w : Waiter} (h : WInv q k w) : (wakeW k w).2 = [] := by
+  unfold WInv at h
+  unfold wakeW
+  cases hf : w.fut <;> cases hk : w.kind <;> cases ha : w.awaiting <;> cases hc : w.cancelReq <;>
+    cases he : w.expired <;> simp_all [FStatus.done]
+
+theorem cb_length {s : State} (hi : Inv s) : (step s .cb).cbq.length = s.cbq.length - 1 := by
+  simp only [step]
+  cases hq : s.cbq with
+  | nil => simp [hq]
+  | cons c q =>
+    cases c with
+    | remove k => cases hk : s.ws[k]? <;> simp [hk]
+    | wake k =>
+      cases hk : s.ws[k]? with
+      | none => simp [hk]
+      | some w => simp [hk, State.put, wakeW_cbs_nil (hi.w _ _ hk)]
+
+theorem drain_foldl : ∀ (n : Nat) (s : State), Inv s → s.cbq.length = n →
+    ((List.replicate n Op.cb).foldl step s).cbq = [] := by
+  intro n
+  induction n with
+  | zero => intro s _ h; simpa using h
+  | succ n ih =>
+    intro s hi h
+    rw [List.replicate_succ, List.foldl_cons]
+    apply ih _ (inv_step hi _)
+    rw [cb_length hi, h]; rfl
 
 end AioslskVerif.Expect
